@@ -48,7 +48,11 @@ func importLogs(w http.ResponseWriter, r *http.Request) {
 				api.NoContent(w)
 				return
 			} else {
-				common.InternalServerError(w, r, fmt.Errorf("reading input stream: %w", err))
+				// the stream is supplied by the client: a document that is not a log is its error.
+				// End the import first: its goroutine holds the ledger lock until the stream is closed.
+				close(stream)
+				<-errChan
+				api.BadRequest(w, common.ErrValidation, fmt.Errorf("reading input stream: %w", err))
 				return
 			}
 		}
@@ -56,6 +60,8 @@ func importLogs(w http.ResponseWriter, r *http.Request) {
 		select {
 		case stream <- l:
 		case <-r.Context().Done():
+			close(stream)
+			<-errChan
 			common.InternalServerError(w, r, fmt.Errorf("request context done: %w", r.Context().Err()))
 			return
 		case err := <-errChan:
